@@ -200,6 +200,23 @@ func (x *g) genMethod(sv *spec.Service, j int, used map[string]bool) {
 			Key: &spec.Attr{Type: &spec.Type{Kind: x.r.Pick(spec.String, spec.String, spec.Int)}}, Elem: elem}})
 		x.s.AddFeature("map", "payload-map-of-primitives")
 	}
+	// an array of non-string primitives with a default value that genHTTP sends in the query string or a header
+	// (the caller may leave it unset: the service must then see the default)
+	if (x.o.Profile == "http-loc" || x.o.Profile == "mixed") && !streaming && m.Payload != nil && m.Payload.Type.Kind == spec.Object && x.chance(1, 3) {
+		used := map[string]bool{}
+		for _, a := range m.Payload.Type.Attrs {
+			used[spec.Norm(a.Name)] = true
+		}
+		n := "sizes"
+		for used[spec.Norm(n)] {
+			n += "x"
+		}
+		at := &spec.Type{Kind: spec.Array, Elem: &spec.Attr{Type: &spec.Type{Kind: x.r.Pick(spec.Int, spec.Int64, spec.UInt32, spec.Float64, spec.Boolean, spec.Int32)}}}
+		if d := x.genCollectionDefault(at); d != nil {
+			m.Payload.Type.Attrs = append(m.Payload.Type.Attrs, &spec.Attr{Name: n, Type: at, Default: d, HasDef: true})
+			x.s.AddFeature("default-array", "param-array-default")
+		}
+	}
 	// an attribute typed by the outer alias of a chain (validations on the innermost alias), wherever genHTTP puts it
 	if len(x.chain) > 0 && m.Payload != nil && m.Payload.Type.Kind == spec.Object && x.chance(2, 3) {
 		m.Payload.Type.Attrs = append(m.Payload.Type.Attrs, &spec.Attr{Name: "chain_in", Type: &spec.Type{Kind: spec.Ref, Ref: x.chain[x.r.Intn(len(x.chain))]}})
@@ -562,6 +579,9 @@ func (x *g) genHTTP(sv *spec.Service, m *spec.Method, idx int) {
 				where := x.r.Intn(10)
 				if x.o.Profile == "http-loc" || x.o.Profile == "openapi" {
 					where = x.r.Intn(7)
+				}
+				if arrPrim && a.HasDef && strings.HasPrefix(a.Name, "sizes") {
+					where = 1 + x.r.Intn(4) // the defaulted array gadget: query string or header
 				}
 				if m.Stream != "" && where > 5 {
 					// a websocket handshake is a GET without body: every attribute travels in the path, the
